@@ -1,10 +1,10 @@
 (** Executable model of [NaiveTime] (src/naive/time/mod.rs) and of the [Timelike] default methods it
     inherits (src/traits.rs: hour12), in the trapping-integer monad of Base.Int.  Mirrors the Rust
     line by line; the numerals are the literals of the Rust functions (the file defines no named
-    constants).  Durations are the [td] of Model/C06.v.  Shared by every property that needs times
+    constants).  Durations are the [td] of Model/TimeDelta.v.  Shared by every property that needs times
     of day.  No proofs here. *)
 From Coq Require Import ZArith List Bool String.
-From V Require Import Base.Int Base.IO Gen.TimeDelta Model.C06.
+From V Require Import Base.Int Base.IO Gen.TimeDelta Model.TimeDelta.
 Import ListNotations.
 Open Scope Z_scope.
 
@@ -180,11 +180,24 @@ Definition overflowing_sub_offset (t : ntime) (off : Z) : R (ntime * Z) :=
 Definition op_add_td (t : ntime) (rhs : td) : R ntime := rmap fst (overflowing_add_signed t rhs).
 Definition op_sub_td (t : ntime) (rhs : td) : R ntime := rmap fst (overflowing_sub_signed t rhs).
 
-(* the reduction of a core::time::Duration (as_secs : u64, subsec_nanos : u32 < 10^9) used by
-   Add<Duration> and Sub<Duration> *)
+(* const fn wrapping_secs(secs: u64) -> i64   [repaired code, fixes/C07-std-duration-leap.diff]
+     const DAY: u64 = 24 * 60 * 60;
+     (if secs < DAY { secs } else { DAY + secs % DAY }) as i64
+   (before the repair: [rhs.as_secs() % (2 * 24 * 60 * 60)], which maps every non-zero multiple
+   of two days to zero seconds, see Proofs/C07.v [std_add_unrepaired_refuted]) *)
+Definition STD_DAY : Z := Eval compute in 24 * 60 * 60.
+Definition wrapping_secs (secs : Z) : R Z :=
+  if secs <? STD_DAY then Val (as_i64 secs)
+  else let* r := rem_u64 secs STD_DAY in let* x := add_u64 STD_DAY r in Val (as_i64 x).
+(* the conversion of a core::time::Duration (as_secs : u64, subsec_nanos : u32 < 10^9) used by
+   Add<Duration> and Sub<Duration>:
+     TimeDelta::new(wrapping_secs(rhs.as_secs()), rhs.subsec_nanos()).unwrap() *)
 Definition std_reduce (dsecs dnanos : Z) : R td :=
-  let* m := mul_u64 2 24 in let* m := mul_u64 m 60 in let* m := mul_u64 m 60 in
-  let* secs := rem_u64 dsecs m in
+  let* secs := wrapping_secs dsecs in
+  unwrap (td_new secs dnanos).
+(* the unrepaired reduction, kept only to state the recorded finding *)
+Definition std_reduce_unrepaired (dsecs dnanos : Z) : R td :=
+  let* secs := rem_u64 dsecs 172800 in
   unwrap (td_new (as_i64 secs) dnanos).
 (* impl Add<Duration> for NaiveTime *)
 Definition op_add_std (t : ntime) (dsecs dnanos : Z) : R ntime :=
